@@ -4,7 +4,7 @@ copies /tmp/rt/<Cnn>_out/{patch.diff,demo.py,meta.json} to /verif/seeded/<Cnn>-<
 import json, os, shutil, sys
 prop, slug, detected = sys.argv[1:4]
 src = "/tmp/rt/%s_out" % prop
-if prop[0] in "DEF":        # second-wave red-team output directories are named Dnn_out
+if prop[0] in "DEFGH":        # second-wave red-team output directories are named Dnn_out
     prop = "C" + prop[1:]
 dst = "/verif/seeded/%s-%s" % (prop, slug)
 os.makedirs(dst, exist_ok=True)
